@@ -218,3 +218,14 @@ PROPS["C31"] = dict(
     outside="arbitrary (hostile) payload bytes through prost skip_field (recursive group skipping, depth 100: no result in 15 min even for one symbolic byte); GossipsubCodec::decode after the pre-validation (prost parse into Rpc, per-topic size check, signature handling: HashMap + crypto); multi-byte length prefixes; Framed's chunk delivery (covered by quantifying over the buffer contents at each decode call)",
     stubs=[TRACING, FMT], assumptions=[], hooks=["hook: libp2p_gossipsub::verif_hooks::validate_rpc_limits (wrapper calling the private function)"],
 )
+
+PROPS["C20"] = dict(
+    group="core", files=["c20.rs"],
+    explanation=(
+        "libp2p_identity::PeerId::from_bytes / to_bytes on N symbolic bytes (N per instance): accepted iff the input is "
+        "exactly [0x00, len<=42, digest] or [0x12, 32, digest] (SHA2-256 code with another digest length left open), "
+        "rejected otherwise; for every accepted p: to_bytes(p) == input and from_bytes(to_bytes(p)) == p; never panics."),
+    bounds="input lengths {0,1,2,3} (quick) + {4,6,34,36,44,45} (thorough), all byte values; unwind 70",
+    outside="base58 text encoding; PeerId::from_public_key (needs key generation / SHA-256 / protobuf of real keys); public/private key protobuf round trips (curve arithmetic, RSA); inputs longer than 45 bytes",
+    stubs=[TRACING, FMT], assumptions=[FORGET], hooks=[],
+)
